@@ -191,6 +191,14 @@ func runCommentCheck(path string) {
 				o.Skip = "number of declarations changed"
 				break
 			}
+			importComments := map[string]int{}
+			for _, d := range od {
+				if d.isImport {
+					for _, t := range d.comments {
+						importComments[t]++
+					}
+				}
+			}
 			isTouched := map[int]bool{}
 			for _, t := range c.Touched {
 				isTouched[t] = true
@@ -201,6 +209,23 @@ func runCommentCheck(path string) {
 					continue
 				}
 				o.Untouched++
+				// comments of an import declaration the patch edited may end up next to a declaration
+				// (they are not lost, invented or duplicated: see above); the declaration's own
+				// comments are required exactly, in order
+				own := map[string]int{}
+				for _, t := range a[i].comments {
+					own[t]++
+				}
+				var kept []string
+				for _, t := range b[i].comments {
+					if own[t] > 0 {
+						own[t]--
+						kept = append(kept, t)
+					} else if importComments[t] == 0 {
+						kept = append(kept, t) // a foreign comment that is not from the import block: reported below
+					}
+				}
+				b[i].comments = kept
 				if strings.Join(a[i].comments, "\x00") != strings.Join(b[i].comments, "\x00") {
 					o.Problems = append(o.Problems, fmt.Sprintf("declaration %d is syntactically unchanged but its comments changed: %q -> %q", i, a[i].comments, b[i].comments))
 				}
